@@ -167,6 +167,12 @@ func init() {
 			}
 			w.WriteString("]\n")
 		}
+		if e := constExpr("defaultColWidth"); e != nil {
+			fmt.Fprintf(w, "def defaultColWidth : String := %s\n", leanStr(strings.TrimSpace(src(e))))
+		} else {
+			fail("constant defaultColWidth")
+			w.WriteString("def defaultColWidth : String := \"\"\n")
+		}
 		if fs, ok := c11StructFields("xlsxWorksheet"); ok {
 			w.WriteString("def worksheetFields : List String := [")
 			for i, f := range fs {
